@@ -669,6 +669,13 @@ func (u *Unit) initCounted() {
 		cls = append(cls, lc.Steps...)
 		cls = append(cls, lc.Entry...)
 	}
+	for _, fc := range u.ct.FnCalls {
+		cls = append(cls, fc.Requires...)
+		cls = append(cls, fc.Ensures...)
+	}
+	for _, le := range u.ct.LitEnsures {
+		cls = append(cls, le...)
+	}
 	for _, cl := range cls {
 		for _, m := range reCalled.FindAllStringSubmatch(cl.Text, -1) {
 			k := strings.Join(strings.Fields(m[1]), "")
